@@ -35,14 +35,14 @@ def _call_failures(spec, nb, per, pos, out, label):
     bad = []
     for k in range(len(tgt)):
         a = per[k]
-        got, want = np.linalg.norm(out[k] - pos[a]), s * np.linalg.norm(tgt[k] - ref[a])
+        got, want = np.linalg.norm(out[k] - pos[a]), abs(s) * np.linalg.norm(tgt[k] - ref[a])     # |s|: a distance
         if abs(got - want) > TOL:
             bad.append("%s: mapped atom %d: distance to its anchor %d is %.12g, s * construction distance is %.12g" % (
                 label, k, a, got, want))
     for j in range(len(tgt)):
         for k in range(j + 1, len(tgt)):
             if per[j] == per[k]:
-                got, want = np.linalg.norm(out[j] - out[k]), s * np.linalg.norm(tgt[j] - tgt[k])
+                got, want = np.linalg.norm(out[j] - out[k]), abs(s) * np.linalg.norm(tgt[j] - tgt[k])
                 if abs(got - want) > TOL:
                     bad.append("%s: mapped atoms %d,%d share anchor %d: distance %.12g, s * construction distance %.12g" % (
                         label, j, k, per[j], got, want))
@@ -85,7 +85,7 @@ def shape_failures(spec, steps, probes, rs_seed=0):
     # locality: displace one reference atom at a time, call the same map again
     rs = np.random.RandomState(rs_seed)
     m = res["map"]
-    refmol = E.get_mol("R", n, spec["bonds"])
+    refmol = E.ref_mol(spec)
     refp, out = res["calls"][-1]["pos"], res["calls"][-1]["out"]
     for idx, j in enumerate(probes):
         refq = refp.copy()
